@@ -24,13 +24,34 @@ pub struct ListRng {
     pub words: Vec<u64>,
     pub pos: usize,
 }
+thread_local! {
+    /// the whole word behind the latest GENUINE 32-bit draw from a `ListRng` (cleared by every 64-bit draw)
+    static LAST_NARROW: std::cell::Cell<Option<u64>> = const { std::cell::Cell::new(None) };
+}
+fn fold32(w: u64) -> u32 {
+    ((w >> 32) ^ w) as u32
+}
+/// a 32-bit draw, reported as the list word it consumed - or as an impossible word when the value did not come
+/// from a genuine 32-bit draw of the generator that was handed in (e.g. was cut out of a 64-bit draw by an adapter)
+fn narrow_draw<R: rand::Rng + ?Sized>(rng: &mut R) -> u64 {
+    LAST_NARROW.with(|c| c.set(None));
+    let v = rng.next_u32();
+    match LAST_NARROW.with(std::cell::Cell::take) {
+        Some(w) if fold32(w) == v => w,
+        _ => u64::MAX,
+    }
+}
 impl RngCore for ListRng {
     fn next_u32(&mut self) -> u32 {
-        self.next_u64() as u32
+        let w = self.words.get(self.pos).copied().unwrap_or(0);
+        self.pos += 1;
+        LAST_NARROW.with(|c| c.set(Some(w)));
+        fold32(w)
     }
     fn next_u64(&mut self) -> u64 {
         let w = self.words.get(self.pos).copied().unwrap_or(0);
         self.pos += 1;
+        LAST_NARROW.with(|c| c.set(None));
         w
     }
     fn fill_bytes(&mut self, dst: &mut [u8]) {
@@ -95,9 +116,9 @@ impl std::fmt::Display for ProbeErr {
 impl std::error::Error for ProbeErr {}
 
 impl Ctl {
-    /// the common part of every probe: draw one word, log, maybe fail
+    /// the common part of every probe: draw one word (probes with an odd number by a 32-bit draw), log, maybe fail
     fn hit<R: rand::Rng + ?Sized>(&self, id: i64, input: Tree, rng: &mut R) -> Result<i64, ProbeErr> {
-        let w = rng.next_u64();
+        let w = if id % 2 == 1 { narrow_draw(rng) } else { rng.next_u64() };
         self.log.borrow_mut().push(tl![a(id), input, a(w)]);
         let c = *self.calls.borrow();
         *self.calls.borrow_mut() += 1;
@@ -178,7 +199,7 @@ impl Recombinator<(i64, i64)> for P {
 impl Selector<Vec<i64>> for Sel {
     type Error = ProbeErr;
     fn select<'p, R: rand::Rng + ?Sized>(&self, pop: &'p Vec<i64>, rng: &mut R) -> Result<&'p i64, ProbeErr> {
-        let w = rng.next_u64();
+        let w = if self.0 % 2 == 1 { narrow_draw(rng) } else { rng.next_u64() };
         self.1.log.borrow_mut().push(tl![a(self.0), pop.val(), a(w)]);
         let c = *self.1.calls.borrow();
         *self.1.calls.borrow_mut() += 1;
@@ -258,7 +279,7 @@ macro_rules! mk_map {
         Identity.map($e)
     };
 }
-pub const NSHAPES: usize = 36;
+pub const NSHAPES: usize = 40;
 
 /// runs shape `id`; returns (description, input value tree, result tree)
 fn run_shape(id: usize, x: i64, c: &Ctl, rng: &mut ListRng) -> Option<(Tree, Tree, Tree)> {
@@ -327,6 +348,25 @@ fn run_shape(id: usize, x: i64, c: &Ctl, rng: &mut ListRng) -> Option<(Tree, Tre
             xin,
             fin(p(1).then(d(2)).and(v(3)).then(q(4)).apply(x, rng)),
         ),
+        // wrappers around type-erased operators (boxed and borrowed trait objects)
+        36 => {
+            let b: Box<dyn ec_core::operator::mutator::DynMutator<i64, ProbeErr>> = Box::new(p(1));
+            (then(wrap(sp(1)), sp(2)), xin, fin(Mutate::new(b).then(p(2)).apply(x, rng)))
+        }
+        37 => {
+            let p1 = p(1);
+            let r: &dyn ec_core::operator::mutator::DynMutator<i64, ProbeErr> = &p1;
+            (then(sq(2), wrap(sp(1))), xin, fin(q(2).then(Mutate::new(r)).apply(x, rng)))
+        }
+        38 => {
+            let b: Box<dyn ec_core::operator::recombinator::DynRecombinator<(i64, i64), ProbeErr, Output = i64>> = Box::new(p(3));
+            (then(sd(1), wrap(sp(3))), xin, fin(d(1).then(Recombine::new(b)).apply(x, rng)))
+        }
+        39 => {
+            let pop = vec![x, x + 1, x + 2];
+            let b: Box<dyn ec_core::operator::selector::DynSelector<Vec<i64>, ProbeErr>> = Box::new(Sel(1, c.clone()));
+            (then(wrap(tl![A(14), A(1)]), sq(2)), pop.val(), fin(Select::new(b).then(q(2)).apply(&pop, rng).map(|r| *r)))
+        }
         _ => return None,
     })
 }
